@@ -235,6 +235,34 @@ def run(facts, tier):
                 if extra and eager:
                     l3.examined((mode, name, "derived-operands"), True, {"mode": mode, "term": name, "eager_operands": eager, "derived_operands_run_at_once": len(extra)})
                     l3.violate(f"{mode}/{name}/derived", f"TermId::{mode}, {name}: besides operand {eager}, filters nested in another operand (e.g. the index filters of a path) are run as soon as the term is run, through closures handed to functions that call them at once ({', '.join(sorted(x.split('::')[-1] for x in IMMEDIATE if x.split('::')[-1] in str(a['body'])))}): they are evaluated before (and even if never) the first operand yields", where=extra[0]["sp"])
+    # no operand is run twice by the value evaluator (a second run repeats the effects of the first: `input`, `debug`)
+    f_run, m_run = evaluator(facts, "run")
+    if m_run is not None:
+        def max_runs(e, ids):
+            """maximal number of run-calls on the given sub-term along one control path through e"""
+            e = strip(e) if isinstance(e, dict) else e
+            if isinstance(e, list):
+                return sum(max_runs(x, ids) for x in e)
+            if not isinstance(e, dict):
+                return 0
+            k = e.get("k")
+            if k == "If":
+                return max_runs(e["c"], ids) + max(max_runs(e.get("t"), ids), max_runs(e.get("f"), ids))
+            if k == "Match":
+                return max_runs(e["scrut"], ids) + max([max_runs(a_.get("guard"), ids) + max_runs(a_["body"], ids) for a_ in e["arms"]] or [0])
+            own = 0
+            if k == "MethodCall" and e["m"]["name"] == "run" and (e["m"].get("def") or "").startswith("jaq_core::filter::"):
+                r_ = strip(e["recv"])
+                if (r_.get("path") or {}).get("id") in ids:
+                    own = 1
+            return own + sum(max_runs(v, ids) for kk, v in e.items() if kk not in ("sp", "ty", "exp", "adj", "adj_ty", "m"))
+        for a in m_run["arms"]:
+            for pos, ids in pat_binds(a["pat"]).items():
+                n_ = max_runs(a["body"], set(ids))
+                if n_:
+                    l3.examined(("run-once", a["sp"], pos), True)
+                if n_ > 1:
+                    l3.violate(f"run/twice/{pos}", f"the value evaluator runs operand {pos} of a term {n_} times on one path: the outputs (and effects such as `input`) of the first run are repeated", where=a["sp"])
     # the lazy wrapper itself
     lz = facts.hir_fn("jaq_core::filter::lazy")
     if lz is None:
@@ -247,6 +275,56 @@ def run(facts, tier):
         if not ok:
             l3.violate("lazy", "`lazy` no longer defers the construction of its iterator (once_with + flatten)", where=lz["sp"])
     rules.append(l3.finish())
+
+    # ---------------- L3.6 the shared input stream hides its size
+    l6 = Rule("L3.6", "the iterator through which `input`/`inputs` take values from the shared input stream gives no size hint: otherwise the single-output fast paths "
+              "(which pull a stream of exactly one element when a filter is instantiated) would consume an input before its value is demanded", floor=2)
+    nexts_ = [j for j in facts.mir("jaq_std") if re.search(r"^<&.*jaq_std::input::RcIter<.*> as core::iter::traits::iterator::Iterator>::next$", j["def"])]
+    hints_ = [j for j in facts.mir("jaq_std") if re.search(r"jaq_std::input::RcIter<.*> as core::iter::traits::iterator::Iterator>::size_hint$", j["def"])]
+    if not nexts_:
+        l6.missing_anchor("impl Iterator for &RcIter")
+    else:
+        l6.examined("RcIter", True, {"shared_input_iterator_overrides_size_hint": bool(hints_)})
+        if hints_:
+            l6.violate("rciter/size_hint", "the shared input iterator reports a size hint: with exactly one input left, every pipe or flat-map over `inputs` pulls it when the filter is instantiated, before it is demanded", where=hints_[0]["sp"])
+    # the natives: what they return must not be a sized single-element iterator built from a pull at construction
+    # (covered by L3.1) nor an adaptor that reports at most one element (`take(1)`, `Option::into_iter`)
+    reg_ = native_of_closure = None
+    from hirutil import native_registry
+    for cdef, (nm, owner, sp_) in native_registry(facts).items():
+        if not owner.startswith("jaq_std::input::"):
+            continue
+        body_ = [h for h in facts.hir("jaq_std") if h["def"] == owner]
+        clos = [c_ for h in body_ for c_ in find(h["body"], lambda n: n.get("k") == "Closure" and n.get("def") == cdef)]
+        for c_ in clos:
+            from hirtab import callees as _callees
+            cl_ = _callees(c_)
+            sized = [x for x in cl_ if re.search(r"Iterator::take$|core::option::Option::<T>::into_iter$|<core::option::Option<T> as core::iter::traits::collect::IntoIterator>::into_iter$|iter::sources::once::once$|Iterator::next$", x)]
+            l6.examined(("native", nm), True, {"native": nm, "sized_single_element_adaptors": sized})
+            if sized:
+                l6.violate(f"native/{nm}", f"native `{nm}` returns its input through {sized}: an iterator that announces at most one element is pulled by the fast paths when the filter is instantiated", where=c_["sp"])
+    rules.append(l6.finish())
+
+    # ---------------- L3.7 no look-ahead on value streams in the evaluation engine
+    l7 = Rule("L3.7", "the evaluation engine (trampoline, fold, the evaluators, the core natives, paths) never looks ahead on a stream of values: no `peekable`/`peek`/`next_if` "
+              "in jaq-core outside the parser -- peeking evaluates the next output of a filter before the current one has been delivered", floor=100)
+    LOOK = re.compile(r"Iterator::peekable$|adapters::peekable::Peekable<.*>::(peek|peek_mut|next_if|next_if_eq)$|Peekable::<I>::(peek|peek_mut|next_if|next_if_eq)$|itertools.*::(peek\w*|multipeek)$")
+    nfun = 0
+    for j in facts.mir("jaq_core"):
+        if j["def"].startswith("jaq_core::load::") or (j.get("root") or "").startswith("jaq_core::load::") or j.get("test"):
+            continue
+        nfun += 1
+        b = Body(j)
+        for i_, t_ in b.calls():
+            c_ = Body.callee(t_) or ""
+            if LOOK.search(c_) or LOOK.search(t_.get("fn") or ""):
+                l7.violate(f"lookahead/{j['def'].split('::{closure')[0]}", f"`{j['def']}` looks ahead on a stream (`{(t_.get('fn') or c_).split('::')[-1]}`): the next output is evaluated before the current one is delivered (a prefix consumer such as `first` then runs into errors, divergence or input consumption that lie behind its result)", where=t_["sp"])
+        l7.examined(j["def"], False)
+    l7.instances = nfun
+    l7.nontrivial = {("bodies", nfun)} if nfun else set()
+    if nfun < 100:
+        l7.missing_anchor(f"bodies of the evaluation engine ({nfun} found)")
+    rules.append(l7.finish())
 
     # ---------------- L3.5 each output reaches the consumer before the next is computed
     l5 = Rule("L3.5", "the command-line writer flushes after every value, so the consumer of the command line obtains output k before output k+1 is computed (shared with C17 F17.3)", floor=2)
